@@ -260,3 +260,43 @@ func init() {
 	regs([]string{"github.com/pkg/errors.Wrap", "github.com/pkg/errors.Wrapf", "github.com/pkg/errors.WithMessage", "github.com/pkg/errors.WithMessagef"}, wrap)
 	reg("github.com/pkg/errors.WithStack", func(in *Interp, fn *ssa.Function, args []value) (value, bool) { return args[0], true })
 }
+
+func init() {
+	fprint := func(formatted bool) summaryFn {
+		return func(in *Interp, fn *ssa.Function, args []value) (value, bool) {
+			w := args[0].(Iface)
+			if w.T == nil {
+				panic(targetPanic{Msg: "nil pointer dereference (Fprintf to nil writer)"})
+			}
+			var s *Str
+			if formatted {
+				s = in.sprintf(args[1].(*Str).MustConcrete("format"), variadic(args[2]))
+			} else {
+				var parts []*Str
+				for _, a := range variadic(args[1]) {
+					parts = append(parts, in.fmtArg('v', "", a))
+				}
+				s = concatStr(parts...)
+			}
+			m := in.findMethod(w.T, "Write")
+			if m == nil {
+				panic(engineErr("Fprintf: writer %v has no Write method", w.T))
+			}
+			res := in.callFn(in.curFrame, 0, m, []value{w.V, sliceOfStr(s)})
+			return res, true
+		}
+	}
+	reg("fmt.Fprintf", fprint(true))
+	reg("fmt.Fprint", fprint(false))
+	reg("fmt.Sprintln", func(in *Interp, fn *ssa.Function, args []value) (value, bool) {
+		var parts []*Str
+		for i, a := range variadic(args[0]) {
+			if i > 0 {
+				parts = append(parts, lit(" "))
+			}
+			parts = append(parts, in.fmtArg('v', "", a))
+		}
+		parts = append(parts, lit("\n"))
+		return concatStr(parts...), true
+	})
+}
